@@ -18,7 +18,8 @@ RULE = ('Hypothesis-generated queries from the language-neutral expression vocab
         '(language-neutral poison under a conditional, missing fields, STRICT LEFT mismatch, text-level mistakes). Oracle = reference interpreter on the same '
         'structured query (result table, header by the C07 rule, error class and record number) and caller arrays unchanged; a Python-engine vs JS-engine '
         'differential localises a disagreement. Non-trivial = as C01-C05 for the corresponding shape (>=2 records and a split WHERE / star / unnest / ragged; '
-        'a tie or duplicate or cutting bound; >=2 groups with a non-COUNT aggregate; multi-match and unmatched join keys; an UPDATE that splits the table).')
+        'a tie or duplicate or cutting bound; >=2 groups with a non-COUNT aggregate; multi-match and unmatched join keys; an UPDATE that splits the table).'
+        ' Later additions: exponent / signed / fraction-only numeric strings, zero / negative-heavy aggregate data, the shared-table-objects stage (8 x 10 x 8 query / edit / query sequences, both engines), wide-header cases, sort + dedup + truncate at scale.')
 ASSUMPTIONS = ['string order is compared on ASCII only (UTF-16 vs code-point order is a language difference)', 'JS numbers are doubles: aggregate data are integer-valued',
                'queries run strictly one after another (rbql-js keeps its context in a module global, documented)']
 
